@@ -1,6 +1,7 @@
 /- REGENERATED on every run by harness/cmd/extract (wirefuncs.go): the bodies of the wire primitives of
    /repo's encoder.go / decoder.go, translated statement by statement. Do not edit. -/
 import Csproto.Model.GoSem
+import Csproto.Generated.Facts
 set_option linter.unusedVariables false
 namespace Csproto.Generated.WireFuncs
 open Csproto
@@ -88,7 +89,7 @@ abbrev DecodeFixed32.R := BitVec 32 × BitVec 64 × Go.Err
 /-- the body of `DecodeFixed32`, statement by statement -/
 def DecodeFixed32.body (fuel : Nat) : DecodeFixed32.St → Go.Out DecodeFixed32.St DecodeFixed32.R :=
   (Go.seq (Go.seq (fun s => if (BitVec.slt (BitVec.ofNat 64 s.p.length) 4#64) then (fun s => .ret (0#32, 0#64, Go.Err.unexpectedEOF) s) s else Go.skip s)
-    (Go.seq (fun s => if ((4#64).toNat ≤ s.p.length) then .next { s with p := s.p.take (4#64).toNat } else .panic)
+    (Go.seq (fun s => if ((4#64).toNat ≤ s.p.length) then .next { s with p := (s.p.take (4#64).toNat) } else .panic)
     (Go.seq (fun s => if ((0#64).toNat < s.p.length) then .next { s with v := (BitVec.setWidth 32 (Go.rd s.p (0#64).toNat)) } else .panic)
     (Go.seq (fun s => if ((1#64).toNat < s.p.length) then .next { s with v := (s.v ||| ((BitVec.setWidth 32 (Go.rd s.p (1#64).toNat)) <<< 8)) } else .panic)
     (Go.seq (fun s => if ((2#64).toNat < s.p.length) then .next { s with v := (s.v ||| ((BitVec.setWidth 32 (Go.rd s.p (2#64).toNat)) <<< 16)) } else .panic)
@@ -112,7 +113,7 @@ abbrev DecodeFixed64.R := BitVec 64 × BitVec 64 × Go.Err
 /-- the body of `DecodeFixed64`, statement by statement -/
 def DecodeFixed64.body (fuel : Nat) : DecodeFixed64.St → Go.Out DecodeFixed64.St DecodeFixed64.R :=
   (Go.seq (Go.seq (fun s => if (BitVec.slt (BitVec.ofNat 64 s.p.length) 8#64) then (fun s => .ret (0#64, 0#64, Go.Err.unexpectedEOF) s) s else Go.skip s)
-    (Go.seq (fun s => if ((8#64).toNat ≤ s.p.length) then .next { s with p := s.p.take (8#64).toNat } else .panic)
+    (Go.seq (fun s => if ((8#64).toNat ≤ s.p.length) then .next { s with p := (s.p.take (8#64).toNat) } else .panic)
     (Go.seq (fun s => if ((0#64).toNat < s.p.length) then .next { s with v := (BitVec.setWidth 64 (Go.rd s.p (0#64).toNat)) } else .panic)
     (Go.seq (fun s => if ((1#64).toNat < s.p.length) then .next { s with v := (s.v ||| ((BitVec.setWidth 64 (Go.rd s.p (1#64).toNat)) <<< 8)) } else .panic)
     (Go.seq (fun s => if ((2#64).toNat < s.p.length) then .next { s with v := (s.v ||| ((BitVec.setWidth 64 (Go.rd s.p (2#64).toNat)) <<< 16)) } else .panic)
@@ -516,6 +517,85 @@ def Decoder_DecodeFixed64.body (fuel : Nat) : Decoder_DecodeFixed64.St → Go.Ou
 
 def Decoder_DecodeFixed64 (fuel : Nat) (d_p : Bytes) (d_offset : BitVec 64) (d_mode : BitVec 64) (d_keyStart : BitVec 64) (d_keyEnd : BitVec 64) : Go.Out Decoder_DecodeFixed64.St Decoder_DecodeFixed64.R :=
   Decoder_DecodeFixed64.body fuel { d_p := d_p, d_offset := d_offset, d_mode := d_mode, d_keyStart := d_keyStart, d_keyEnd := d_keyEnd }
+
+/-! ### `Decoder.DecodeBytes` (/repo/decoder.go:190:1) -/
+
+structure Decoder_DecodeBytes.St where
+  d_p : Bytes
+  d_offset : BitVec 64
+  d_mode : BitVec 64
+  d_keyStart : BitVec 64
+  d_keyEnd : BitVec 64
+  l : BitVec 64 := 0#64
+  n : BitVec 64 := 0#64
+  err : Go.Err := Go.Err.nil
+  nb : BitVec 64 := 0#64
+  b : Bytes := []
+
+abbrev Decoder_DecodeBytes.R := Bytes × Go.Err
+
+/-- the body of `Decoder_DecodeBytes`, statement by statement -/
+def Decoder_DecodeBytes.body (fuel : Nat) : Decoder_DecodeBytes.St → Go.Out Decoder_DecodeBytes.St Decoder_DecodeBytes.R :=
+  (Go.seq (Go.seq (fun s => if (BitVec.sle (BitVec.ofNat 64 s.d_p.length) s.d_offset) then (fun s => .ret (([] : Bytes), Go.Err.unexpectedEOF) s) s else Go.skip s)
+    (Go.seq (fun s => if ((s.d_offset).toNat ≤ s.d_p.length) then match (DecodeVarint fuel (s.d_p.drop (s.d_offset).toNat)) with | .ret r c => .next { s with l := r.1, n := r.2.1, err := r.2.2 } | .next _ => .panic | .panic => .panic | .diverge => .diverge else .panic)
+    (Go.seq (fun s => if ((s.err != Go.Err.nil)) then (fun s => .ret (([] : Bytes), s.err) s) s else if ((s.n == 0#64)) then (fun s => .ret (([] : Bytes), Go.Err.invalidVarint) s) s else if ((BitVec.ult 2147483647#64 s.l)) then (fun s => .ret (([] : Bytes), (Go.Err.other "ErrLenOverflow")) s) s else Go.skip s)
+    (Go.seq (fun s => .next { s with nb := s.l })
+    (Go.seq (fun s => if (BitVec.slt (BitVec.ofNat 64 s.d_p.length) ((s.d_offset + s.n) + s.nb)) then (fun s => .ret (([] : Bytes), Go.Err.unexpectedEOF) s) s else Go.skip s)
+    (Go.seq (fun s => if (((s.d_offset + s.n)).toNat ≤ (((s.d_offset + s.n) + s.nb)).toNat ∧ (((s.d_offset + s.n) + s.nb)).toNat ≤ s.d_p.length) then .next { s with b := ((s.d_p.drop ((s.d_offset + s.n)).toNat).take ((((s.d_offset + s.n) + s.nb)).toNat - ((s.d_offset + s.n)).toNat)) } else .panic)
+    (Go.seq (fun s => .next { s with d_offset := (s.d_offset + (s.n + s.nb)) })
+    (fun s => .ret (s.b, Go.Err.nil) s))))))))
+    Go.missingReturn)
+
+def Decoder_DecodeBytes (fuel : Nat) (d_p : Bytes) (d_offset : BitVec 64) (d_mode : BitVec 64) (d_keyStart : BitVec 64) (d_keyEnd : BitVec 64) : Go.Out Decoder_DecodeBytes.St Decoder_DecodeBytes.R :=
+  Decoder_DecodeBytes.body fuel { d_p := d_p, d_offset := d_offset, d_mode := d_mode, d_keyStart := d_keyStart, d_keyEnd := d_keyEnd }
+
+/-! ### `Decoder.Skip` (/repo/decoder.go:939:1) -/
+
+structure Decoder_Skip.St where
+  d_p : Bytes
+  d_offset : BitVec 64
+  d_mode : BitVec 64
+  d_keyStart : BitVec 64
+  d_keyEnd : BitVec 64
+  tag : BitVec 64
+  wt : BitVec 64
+  sz : BitVec 64 := 0#64
+  bof : BitVec 64 := 0#64
+  v : BitVec 64 := 0#64
+  n : BitVec 64 := 0#64
+  err : Go.Err := Go.Err.nil
+  thisTag : BitVec 64 := 0#64
+  thisWireType : BitVec 64 := 0#64
+  skipped : BitVec 64 := 0#64
+  l : BitVec 64 := 0#64
+
+abbrev Decoder_Skip.R := Bytes × Go.Err
+
+/-- the body of `Decoder_Skip`, statement by statement -/
+def Decoder_Skip.body (fuel : Nat) : Decoder_Skip.St → Go.Out Decoder_Skip.St Decoder_Skip.R :=
+  (Go.seq (Go.seq (fun s => if (BitVec.sle (BitVec.ofNat 64 s.d_p.length) s.d_offset) then (fun s => .ret (([] : Bytes), Go.Err.unexpectedEOF) s) s else Go.skip s)
+    (Go.seq (fun s => .next { s with sz := (SizeOfTagKey s.tag) })
+    (Go.seq (fun s => .next { s with bof := (s.d_offset - s.sz) })
+    (Go.seq (fun s => if (BitVec.slt s.bof 0#64) then (fun s => .next { s with bof := 0#64 }) s else Go.skip s)
+    (Go.seq (fun s => if ((s.d_keyEnd == s.d_offset) && (BitVec.slt s.d_keyStart s.d_keyEnd)) then (fun s => .next { s with bof := s.d_keyStart }) s else Go.skip s)
+    (Go.seq (fun s => if (s.d_mode == 0#64) then (Go.seq (fun s => if ((s.bof).toNat ≤ s.d_p.length) then match (DecodeVarint fuel (s.d_p.drop (s.bof).toNat)) with | .ret r c => .next { s with v := r.1, n := r.2.1, err := r.2.2 } | .next _ => .panic | .panic => .panic | .diverge => .diverge else .panic)
+    (Go.seq (fun s => if (s.err != Go.Err.nil) then (fun s => .ret (([] : Bytes), s.err) s) s else Go.skip s)
+    (Go.seq (fun s => if (s.n != s.sz) then (fun s => .ret (([] : Bytes), Go.Err.invalidVarint) s) s else Go.skip s)
+    (Go.seq (fun s => .next { s with thisTag := (s.v >>> 3), thisWireType := (s.v &&& 7#64) })
+    (fun s => if ((s.thisTag != s.tag) || (s.thisWireType != s.wt)) then (fun s => .ret (([] : Bytes), (Go.Err.other "DecoderSkipError")) s) s else Go.skip s))))) s else Go.skip s)
+    (Go.seq (fun s => .next { s with skipped := 0#64 })
+    (Go.seq (fun s => if ((s.wt == 0#64)) then (Go.seq (fun s => if ((s.d_offset).toNat ≤ s.d_p.length) then match (DecodeVarint fuel (s.d_p.drop (s.d_offset).toNat)) with | .ret r c => .next { s with n := r.2.1, err := r.2.2 } | .next _ => .panic | .panic => .panic | .diverge => .diverge else .panic)
+    (Go.seq (fun s => if (s.err != Go.Err.nil) then (fun s => .ret (([] : Bytes), s.err) s) s else Go.skip s)
+    (fun s => .next { s with skipped := s.n }))) s else if ((s.wt == 1#64)) then (fun s => .next { s with skipped := 8#64 }) s else if ((s.wt == 2#64)) then (Go.seq (fun s => if ((s.d_offset).toNat ≤ s.d_p.length) then match (DecodeVarint fuel (s.d_p.drop (s.d_offset).toNat)) with | .ret r c => .next { s with l := r.1, n := r.2.1, err := r.2.2 } | .next _ => .panic | .panic => .panic | .diverge => .diverge else .panic)
+    (Go.seq (fun s => if ((s.err != Go.Err.nil)) then (fun s => .ret (([] : Bytes), s.err) s) s else if ((s.n == 0#64)) then (fun s => .ret (([] : Bytes), Go.Err.invalidVarint) s) s else if ((BitVec.ult 2147483647#64 s.l)) then (fun s => .ret (([] : Bytes), (Go.Err.other "ErrLenOverflow")) s) s else Go.skip s)
+    (fun s => .next { s with skipped := (s.n + s.l) }))) s else if ((s.wt == 5#64)) then (fun s => .next { s with skipped := 4#64 }) s else (fun s => .ret (([] : Bytes), (Go.Err.other "errorf")) s) s)
+    (Go.seq (fun s => if (BitVec.slt (BitVec.ofNat 64 s.d_p.length) (s.d_offset + s.skipped)) then (fun s => .ret (([] : Bytes), Go.Err.unexpectedEOF) s) s else Go.skip s)
+    (Go.seq (fun s => .next { s with d_offset := (s.d_offset + s.skipped) })
+    (fun s => if ((s.bof).toNat ≤ (s.d_offset).toNat ∧ (s.d_offset).toNat ≤ s.d_p.length) then .ret (((s.d_p.drop (s.bof).toNat).take ((s.d_offset).toNat - (s.bof).toNat)), Go.Err.nil) s else .panic)))))))))))
+    Go.missingReturn)
+
+def Decoder_Skip (fuel : Nat) (d_p : Bytes) (d_offset : BitVec 64) (d_mode : BitVec 64) (d_keyStart : BitVec 64) (d_keyEnd : BitVec 64) (tag : BitVec 64) (wt : BitVec 64) : Go.Out Decoder_Skip.St Decoder_Skip.R :=
+  Decoder_Skip.body fuel { d_p := d_p, d_offset := d_offset, d_mode := d_mode, d_keyStart := d_keyStart, d_keyEnd := d_keyEnd, tag := tag, wt := wt }
 
 /-! ### `Encoder.EncodeUInt64` (/repo/encoder.go:56:1) -/
 
